@@ -31,7 +31,7 @@ def run(meta):
                            capture_output=True, text=True, env=env, timeout=900)
         failed = r.returncode != 0
         want = meta["expect"] == "fail"
-        obl = [l for l in r.stdout.splitlines() if l.startswith("FAILED-OBLIGATION")]
+        obl = [l for l in r.stdout.splitlines() if l.startswith("FAILED-OBLIGATION") or l.startswith("FAILED-BOUNDED-CHECK")]
         verdict = "ok" if failed == want else "WRONG"
         return name, "%s (expected %s, check %s) %s" % (verdict, meta["expect"], "failed" if failed else "passed", obl[0][:150] if obl else ""), meta, time.time() - t0
     finally:
